@@ -19,7 +19,7 @@ from . import core
 def _replay_files(cid):
     base = os.path.join(core.VERIF_DIR, 'replays')
     files = sorted(glob.glob(os.path.join(base, cid + '-*.json')))
-    files += sorted(glob.glob(os.path.join(base, 'found', cid + '-*.json')))
+    files += sorted(glob.glob(os.path.join(os.environ.get('PPV_FOUND_DIR') or os.path.join(base, 'found'), cid + '-*.json')))
     return files
 
 
